@@ -1,9 +1,12 @@
 (* PROGRESS of the batch processors' worker (C02 "ForceFlush and Shutdown terminate"):
    - the worker is never blocked by another thread: at every program point its next event is accepted
      (all its waits are timed; the only thing it ever waits for is the exporter returning);
-   - running alone (application threads quiescent), from ANY reachable state it reaches, within a bound computed
-     from the state, the point where the queue is drained and every pending flush ticket is published -
-     so a waiting ForceFlush caller finds its ticket published, and a Shutdown caller finds the worker exiting.
+   - running alone (application threads quiescent), from ANY state satisfying the invariant it reaches, within a bound
+     computed from the state, (a) when not shut down: the point where the queue is drained and every pending flush
+     ticket is published, so a waiting ForceFlush caller finds its ticket published (worker_solo_flush_progress);
+     (b) when shut down: its exit, so a Shutdown caller's join returns (worker_solo_shutdown_exit) - having drained
+     every accepted record unless it was already past DrainQueue's empty test when a late record came in
+     (worker_solo_shutdown_progress, late_record_left_behind).
    Exporter calls are assumed to return (they are events of the worker). *)
 From V Require Import Batch.Model Batch.ProofsA Batch.ProofsB Batch.Theorems.
 From Coq Require Import Lia List Arith Bool.
@@ -50,4 +53,609 @@ Proof.
   - destruct p; destruct n; simpl; rewrite ?Nat.eqb_refl; eauto.
   all: try (destruct (Nat.leb _ _); eauto).
   all: destruct W as (_ & _ & [X|X]); discriminate.
+Qed.
+
+(* ------------------------------------------------------------------ solo progress
+   Only the worker steps (the application threads are quiescent; exporter calls return - they are worker events).
+   The solo worker is deterministic: [witer n s] is the state after n of its own steps. *)
+
+Fixpoint witer (n : nat) (s : st) : option st :=
+  match n with O => Some s | S n' => match wstep s with Some s1 => witer n' s1 | None => None end end.
+
+(* s' is reached from s within b worker steps *)
+Definition reach (b : nat) (s s' : st) : Prop := exists n, n <= b /\ witer n s = Some s'.
+
+Lemma reach_refl s : reach 0 s s.
+Proof. exists 0; split; [lia | reflexivity]. Qed.
+
+Lemma reach_step b s s1 s' : wstep s = Some s1 -> reach b s1 s' -> reach (S b) s s'.
+Proof. intros H (n & L & W). exists (S n); split; [lia|]. simpl. rewrite H. exact W. Qed.
+
+Lemma witer_app n : forall m s s1 s2, witer n s = Some s1 -> witer m s1 = Some s2 -> witer (n + m) s = Some s2.
+Proof.
+  induction n as [|n IH]; intros m s s1 s2 H1 H2; simpl in *.
+  - inversion H1; subst; exact H2.
+  - destruct (wstep s) as [s0|] eqn:E; [|discriminate]. eapply IH; eauto.
+Qed.
+
+Lemma reach_trans a b s s1 s2 : reach a s s1 -> reach b s1 s2 -> reach (a + b) s s2.
+Proof. intros (n & Ln & Wn) (m & Lm & Wm). exists (n + m); split; [lia|]. eapply witer_app; eauto. Qed.
+
+Lemma reach_le a b s s' : a <= b -> reach a s s' -> reach b s s'.
+Proof. intros L (n & Ln & W). exists n; split; [lia | exact W]. Qed.
+
+(* what no worker step touches *)
+Definition frame (s s' : st) : Prop :=
+  enq s' = enq s /\ pending s' = pending s /\ is_shut s' = is_shut s /\ Bsz s' = Bsz s.
+
+Lemma frame_refl s : frame s s.
+Proof. unfold frame; auto. Qed.
+
+Lemma frame_trans s s1 s2 : frame s s1 -> frame s1 s2 -> frame s s2.
+Proof. unfold frame. intros (A & B & C & D) (A' & B' & C' & D'). repeat split; congruence. Qed.
+
+Lemma wstep_frame s s' : wstep s = Some s' -> frame s s'.
+Proof.
+  unfold wstep. destruct (wev s) as [e|]; [|discriminate]. unfold accept; cbn [fst snd]. intros H.
+  unfold accept_worker in H.
+  destruct (wp s); destruct e; try discriminate H;
+    repeat match goal with o : option nat |- _ => destruct o end; simpl in H;
+    repeat break_if; try discriminate H; inv_some; unfold frame; simpl; auto.
+Qed.
+
+Lemma wstep_inv s s' : Inv s -> wstep s = Some s' -> Inv s'.
+Proof. unfold wstep. intros I H. destruct (wev s); [|discriminate]. eapply accept_preserves; eauto. Qed.
+
+Lemma witer_frame_inv n : forall s s', Inv s -> witer n s = Some s' -> Inv s' /\ frame s s'.
+Proof.
+  induction n as [|n IH]; intros s s' I H; simpl in H.
+  - inversion H; subst. split; [exact I | apply frame_refl].
+  - destruct (wstep s) as [s1|] eqn:E; [|discriminate].
+    destruct (IH s1 s' (wstep_inv _ _ I E) H) as [I' F]. split; [exact I'|].
+    eapply frame_trans; [eapply wstep_frame; eauto | exact F].
+Qed.
+
+Lemma reach_frame b s s' : reach b s s' -> frame s s'.
+Proof.
+  intros (n & _ & W). revert s W. induction n as [|n IH]; intros s W; simpl in W.
+  - inversion W; subst; apply frame_refl.
+  - destruct (wstep s) as [s0|] eqn:E; [|discriminate].
+    eapply frame_trans; [eapply wstep_frame; eauto | apply IH; exact W].
+Qed.
+
+Lemma reach_frame_inv b s s' : Inv s -> reach b s s' -> Inv s' /\ frame s s'.
+Proof. intros I (n & _ & W). eapply witer_frame_inv; eauto. Qed.
+
+(* ---- the single steps, one lemma per program point *)
+Ltac wstep_at Wp :=
+  unfold wstep, wev; rewrite Wp; cbv beta iota; unfold accept; cbn [fst snd]; unfold accept_worker; rewrite Wp; cbv beta iota.
+Ltac step_done := eexists; split; [reflexivity|]; repeat split; reflexivity.
+
+Lemma step_idle s : wp s = WIdle ->
+  exists s', wstep s = Some s' /\ wp s' = (if is_shut s then WDrain0 else WTop false) /\ deq s' = deq s /\ notified s' = notified s.
+Proof. intros Wp. wstep_at Wp. rewrite Bool.eqb_reflx. step_done. Qed.
+
+Lemma step_top s d : wp s = WTop d ->
+  exists s', wstep s = Some s' /\ wp s' = WTicket d (pending s) /\ deq s' = deq s /\ notified s' = notified s.
+Proof. intros Wp. wstep_at Wp. rewrite Nat.eqb_refl. step_done. Qed.
+
+Lemma step_ticket s d k : wp s = WTicket d k ->
+  exists s', wstep s = Some s' /\
+             wp s' = (if Nat.eqb (length (queue s)) 0 then WNotify d k false else WBatch d k (length (queue s))) /\
+             deq s' = deq s /\ notified s' = notified s.
+Proof. intros Wp. wstep_at Wp. rewrite Nat.eqb_refl. step_done. Qed.
+
+Lemma step_batch s d k rem : wp s = WBatch d k rem -> 0 < rem -> deq s + rem <= length (enq s) -> 0 < Bsz s ->
+  exists s', wstep s = Some s' /\ wp s' = WExpBegin d k (rem - Nat.min rem (Bsz s)) (firstn (Nat.min rem (Bsz s)) (queue s)) /\
+             deq s' = deq s + Nat.min rem (Bsz s) /\ notified s' = notified s.
+Proof.
+  intros Wp Hr Hl HB. wstep_at Wp.
+  assert (QL : length (queue s) = length (enq s) - deq s) by (apply queue_len; lia).
+  assert (X : (0 <? Nat.min rem (Bsz s)) = true) by (apply Nat.ltb_lt; lia).
+  assert (Y : (Nat.min rem (Bsz s) <=? length (queue s)) = true) by (apply Nat.leb_le; lia).
+  rewrite Nat.eqb_refl, X, Y. cbv beta iota delta [andb]. step_done.
+Qed.
+
+Lemma step_expbegin s d k rem b : wp s = WExpBegin d k rem b ->
+  exists s', wstep s = Some s' /\ wp s' = WExpEnd d k rem b /\ deq s' = deq s /\ notified s' = notified s.
+Proof. intros Wp. wstep_at Wp. rewrite list_eqb_refl. step_done. Qed.
+
+Lemma step_expend s d k rem b : wp s = WExpEnd d k rem b ->
+  exists s', wstep s = Some s' /\ wp s' = (if Nat.eqb rem 0 then WNotify d k true else WBatch d k rem) /\
+             deq s' = deq s /\ notified s' = notified s.
+Proof. intros Wp. wstep_at Wp. step_done. Qed.
+
+Lemma step_notify s d k more : wp s = WNotify d k more ->
+  exists s', wstep s = Some s' /\ wp s' = (if Nat.ltb (notified s) k then WFlushCall d k more else after_notify d more) /\
+             deq s' = deq s /\ notified s' = notified s.
+Proof. intros Wp. wstep_at Wp. rewrite Nat.eqb_refl. step_done. Qed.
+
+Lemma step_flushcall s d k more : wp s = WFlushCall d k more ->
+  exists s', wstep s = Some s' /\ wp s' = WLd2 d k more /\ deq s' = deq s /\ notified s' = notified s.
+Proof. intros Wp. wstep_at Wp. step_done. Qed.
+
+Lemma step_ld2 s d k more : wp s = WLd2 d k more ->
+  exists s', wstep s = Some s' /\ wp s' = (if Nat.ltb (notified s) k then WCas d k (notified s) more else after_notify d more) /\
+             deq s' = deq s /\ notified s' = notified s.
+Proof. intros Wp. wstep_at Wp. rewrite Nat.eqb_refl. step_done. Qed.
+
+Lemma step_cas s d k v more : wp s = WCas d k v more ->
+  exists s', wstep s = Some s' /\ deq s' = deq s /\
+             if Nat.eqb (notified s) v
+             then wp s' = WCas d k v more /\ notified s' = k
+             else wp s' = (if Nat.ltb (notified s) k then WCas d k (notified s) more else after_notify d more) /\
+                  notified s' = notified s.
+Proof.
+  intros Wp. wstep_at Wp. rewrite !Nat.eqb_refl, Bool.eqb_reflx. cbv beta iota delta [andb].
+  destruct (Nat.eqb (notified s) v); step_done.
+Qed.
+
+Lemma step_drain0 s : wp s = WDrain0 ->
+  exists s', wstep s = Some s' /\ wp s' = (if Nat.eqb (length (queue s)) 0 then WDrainLd None None else WTop true) /\
+             deq s' = deq s /\ notified s' = notified s.
+Proof. intros Wp. wstep_at Wp. rewrite Bool.eqb_reflx. step_done. Qed.
+
+Lemma step_drainld s p n : wp s = WDrainLd p n -> p = None \/ n = None ->
+  exists s', wstep s = Some s' /\ deq s' = deq s /\ notified s' = notified s /\
+             wp s' = match p, n with
+                     | None, None => WDrainLd (Some (pending s)) None
+                     | None, Some nv => if Nat.leb (pending s) nv then WDone else WTop true
+                     | Some pv, _ => if Nat.leb pv (notified s) then WDone else WTop true
+                     end.
+Proof.
+  intros Wp PN. destruct p as [pv|]; destruct n as [nv|]; try (destruct PN; discriminate);
+    wstep_at Wp; rewrite Nat.eqb_refl; step_done.
+Qed.
+
+(* ---- (1) the batch loop: the snapshot [rem] is consumed in batches of min rem B >= 1, three steps each *)
+Lemma batch_pass : forall rem s d k,
+  wp s = WBatch d k rem -> 0 < rem -> deq s + rem <= length (enq s) -> 0 < Bsz s ->
+  exists s', reach (3 * rem) s s' /\ wp s' = WNotify d k true /\ deq s' = deq s + rem /\ notified s' = notified s.
+Proof.
+  induction rem as [rem IH] using lt_wf_ind. intros s d k Wp Hr Hl HB.
+  destruct (step_batch s d k rem Wp Hr Hl HB) as (s1 & S1 & W1 & D1 & N1).
+  destruct (step_expbegin s1 _ _ _ _ W1) as (s2 & S2 & W2 & D2 & N2).
+  destruct (step_expend s2 _ _ _ _ W2) as (s3 & S3 & W3 & D3 & N3).
+  destruct (wstep_frame _ _ S1) as (E1 & _ & _ & B1).
+  destruct (wstep_frame _ _ S2) as (E2 & _ & _ & B2).
+  destruct (wstep_frame _ _ S3) as (E3 & _ & _ & B3).
+  assert (R3 : reach 3 s s3).
+  { eapply reach_step; [exact S1|]. eapply reach_step; [exact S2|]. eapply reach_step; [exact S3|]. apply reach_refl. }
+  destruct (Nat.eqb (rem - Nat.min rem (Bsz s)) 0) eqn:Z.
+  - apply Nat.eqb_eq in Z. exists s3. split; [eapply reach_le; [|exact R3]; lia|].
+    split; [exact W3|]. split; lia.
+  - apply Nat.eqb_neq in Z.
+    destruct (IH (rem - Nat.min rem (Bsz s)) ltac:(lia) s3 d k W3 ltac:(lia)) as (s' & R & W' & D' & N'); try lia.
+    { rewrite E3, E2, E1. lia. }
+    exists s'. split; [eapply reach_le; [|eapply reach_trans; [exact R3 | exact R]]; lia|].
+    split; [exact W'|]. split; lia.
+Qed.
+
+(* ---- (2) NotifyCompletion(k): at most five steps, notified becomes max notified k *)
+Lemma cas_pass_eq s d k v more : wp s = WCas d k v more -> v < k -> notified s = v ->
+  exists s', reach 2 s s' /\ wp s' = after_notify d more /\ deq s' = deq s /\ notified s' = k.
+Proof.
+  intros Wp Hv Hn. destruct (step_cas s d k v more Wp) as (s1 & S1 & D1 & X).
+  rewrite (proj2 (Nat.eqb_eq _ _) Hn) in X. destruct X as [W1 N1].
+  destruct (step_cas s1 d k v more W1) as (s2 & S2 & D2 & X).
+  assert (E : Nat.eqb (notified s1) v = false) by (apply Nat.eqb_neq; lia).
+  assert (L : Nat.ltb (notified s1) k = false) by (apply Nat.ltb_ge; lia).
+  rewrite E, L in X. destruct X as [W2 N2].
+  exists s2. split; [eapply reach_step; [exact S1|]; eapply reach_step; [exact S2|]; apply reach_refl|].
+  split; [exact W2|]. split; lia.
+Qed.
+
+Lemma cas_pass s d k v more : wp s = WCas d k v more -> v < k ->
+  exists s', reach 3 s s' /\ wp s' = after_notify d more /\ deq s' = deq s /\ notified s' = Nat.max (notified s) k.
+Proof.
+  intros Wp Hv. destruct (Nat.eqb (notified s) v) eqn:E.
+  - apply Nat.eqb_eq in E. destruct (cas_pass_eq s d k v more Wp Hv E) as (s' & R & W & D & N).
+    exists s'. split; [eapply reach_le; [|exact R]; lia|]. split; [exact W|]. split; lia.
+  - destruct (step_cas s d k v more Wp) as (s1 & S1 & D1 & X). rewrite E in X. destruct X as [W1 N1].
+    destruct (Nat.ltb (notified s) k) eqn:L.
+    + apply Nat.ltb_lt in L.
+      destruct (cas_pass_eq s1 d k (notified s) more W1 L N1) as (s' & R & W & D & N).
+      exists s'. split; [eapply reach_step; [exact S1 | exact R]|]. split; [exact W|]. split; lia.
+    + apply Nat.ltb_ge in L. exists s1.
+      split; [eapply reach_le; [|eapply reach_step; [exact S1 | apply reach_refl]]; lia|]. split; [exact W1|]. split; lia.
+Qed.
+
+Lemma ld2_pass s d k more : wp s = WLd2 d k more ->
+  exists s', reach 3 s s' /\ wp s' = after_notify d more /\ deq s' = deq s /\ notified s' = Nat.max (notified s) k.
+Proof.
+  intros Wp. destruct (step_ld2 s d k more Wp) as (s1 & S1 & W1 & D1 & N1).
+  destruct (Nat.ltb (notified s) k) eqn:L.
+  - apply Nat.ltb_lt in L.
+    destruct (cas_pass_eq s1 d k (notified s) more W1 L N1) as (s' & R & W & D & N).
+    exists s'. split; [eapply reach_step; [exact S1 | exact R]|]. split; [exact W|]. split; lia.
+  - apply Nat.ltb_ge in L. exists s1.
+    split; [eapply reach_le; [|eapply reach_step; [exact S1 | apply reach_refl]]; lia|]. split; [exact W1|]. split; lia.
+Qed.
+
+Lemma flushcall_pass s d k more : wp s = WFlushCall d k more ->
+  exists s', reach 4 s s' /\ wp s' = after_notify d more /\ deq s' = deq s /\ notified s' = Nat.max (notified s) k.
+Proof.
+  intros Wp. destruct (step_flushcall s d k more Wp) as (s1 & S1 & W1 & D1 & N1).
+  destruct (ld2_pass s1 d k more W1) as (s' & R & W & D & N).
+  exists s'. split; [eapply reach_step; [exact S1 | exact R]|]. split; [exact W|]. split; lia.
+Qed.
+
+Lemma notify_pass s d k more : wp s = WNotify d k more ->
+  exists s', reach 5 s s' /\ wp s' = after_notify d more /\ deq s' = deq s /\ notified s' = Nat.max (notified s) k.
+Proof.
+  intros Wp. destruct (step_notify s d k more Wp) as (s1 & S1 & W1 & D1 & N1).
+  destruct (Nat.ltb (notified s) k) eqn:L.
+  - destruct (flushcall_pass s1 d k more W1) as (s' & R & W & D & N).
+    exists s'. split; [eapply reach_step; [exact S1 | exact R]|]. split; [exact W|]. split; lia.
+  - apply Nat.ltb_ge in L. exists s1.
+    split; [eapply reach_le; [|eapply reach_step; [exact S1 | apply reach_refl]]; lia|]. split; [exact W1|]. split; lia.
+Qed.
+
+(* ---- (3) the rest of a pass from inside the batch loop, from the size snapshot, and a full pass from the top *)
+Lemma batch_notify_pass s d k rem :
+  wp s = WBatch d k rem -> 0 < rem -> deq s + rem <= length (enq s) -> 0 < Bsz s ->
+  exists s', reach (5 + 3 * rem) s s' /\ wp s' = after_notify d true /\ deq s' = deq s + rem /\
+             notified s' = Nat.max (notified s) k.
+Proof.
+  intros Wp Hr Hl HB. destruct (batch_pass rem s d k Wp Hr Hl HB) as (s1 & R1 & W1 & D1 & N1).
+  destruct (notify_pass s1 d k true W1) as (s' & R & W & D & N).
+  exists s'. split; [eapply reach_le; [|eapply reach_trans; [exact R1 | exact R]]; lia|]. split; [exact W|]. split; lia.
+Qed.
+
+Lemma expend_pass s d k rem b : wp s = WExpEnd d k rem b -> deq s + rem <= length (enq s) -> 0 < Bsz s ->
+  exists s', reach (6 + 3 * rem) s s' /\ wp s' = after_notify d true /\ deq s' = deq s + rem /\
+             notified s' = Nat.max (notified s) k.
+Proof.
+  intros Wp Hl HB. destruct (step_expend s d k rem b Wp) as (s1 & S1 & W1 & D1 & N1).
+  destruct (wstep_frame _ _ S1) as (E1 & _ & _ & B1).
+  destruct (Nat.eqb rem 0) eqn:Z.
+  - apply Nat.eqb_eq in Z. destruct (notify_pass s1 d k true W1) as (s' & R & W & D & N).
+    exists s'. split; [eapply reach_le; [|eapply reach_step; [exact S1 | exact R]]; lia|]. split; [exact W|]. split; lia.
+  - apply Nat.eqb_neq in Z.
+    destruct (batch_notify_pass s1 d k rem W1) as (s' & R & W & D & N); try lia.
+    { rewrite E1. lia. }
+    exists s'. split; [eapply reach_le; [|eapply reach_step; [exact S1 | exact R]]; lia|]. split; [exact W|]. split; lia.
+Qed.
+
+Lemma ticket_pass s d k : wp s = WTicket d k -> deq s <= length (enq s) -> 0 < Bsz s ->
+  exists s', reach (6 + 3 * (length (enq s) - deq s)) s s' /\
+             wp s' = after_notify d (negb (Nat.eqb (length (enq s) - deq s) 0)) /\
+             deq s' = length (enq s) /\ notified s' = Nat.max (notified s) k.
+Proof.
+  intros Wp Hd HB. destruct (step_ticket s d k Wp) as (s1 & S1 & W1 & D1 & N1).
+  destruct (wstep_frame _ _ S1) as (E1 & _ & _ & B1).
+  rewrite (queue_len s Hd) in W1.
+  destruct (Nat.eqb (length (enq s) - deq s) 0) eqn:Z; cbn [negb].
+  - apply Nat.eqb_eq in Z. destruct (notify_pass s1 d k false W1) as (s' & R & W & D & N).
+    exists s'. split; [eapply reach_le; [|eapply reach_step; [exact S1 | exact R]]; lia|]. split; [exact W|]. split; lia.
+  - apply Nat.eqb_neq in Z.
+    destruct (batch_notify_pass s1 d k _ W1) as (s' & R & W & D & N); try lia.
+    { rewrite E1. lia. }
+    exists s'. split; [eapply reach_le; [|eapply reach_step; [exact S1 | exact R]]; lia|]. split; [exact W|]. split; lia.
+Qed.
+
+Lemma top_pass s d : wp s = WTop d -> deq s <= length (enq s) -> 0 < Bsz s ->
+  exists s', reach (7 + 3 * (length (enq s) - deq s)) s s' /\
+             wp s' = after_notify d (negb (Nat.eqb (length (enq s) - deq s) 0)) /\
+             deq s' = length (enq s) /\ notified s' = Nat.max (notified s) (pending s).
+Proof.
+  intros Wp Hd HB. destruct (step_top s d Wp) as (s1 & S1 & W1 & D1 & N1).
+  destruct (wstep_frame _ _ S1) as (E1 & _ & _ & B1).
+  destruct (ticket_pass s1 d (pending s) W1) as (s' & R & W & D & N); try lia.
+  { rewrite E1. lia. }
+  rewrite E1, D1 in *.
+  exists s'. split; [eapply reach_le; [|eapply reach_step; [exact S1 | exact R]]; lia|]. split; [exact W|]. split; lia.
+Qed.
+
+(* ---- from any point inside Export()/NotifyCompletion the worker finishes that pass *)
+Definition in_pass (w : wpc) : bool :=
+  match w with
+  | WTicket _ _ | WBatch _ _ _ | WExpBegin _ _ _ _ | WExpEnd _ _ _ _ | WNotify _ _ _ | WFlushCall _ _ _ | WLd2 _ _ _
+  | WCas _ _ _ _ => true
+  | _ => false
+  end.
+
+Lemma mid_pass s : Inv s -> 0 < Bsz s -> in_pass (wp s) = true ->
+  exists s' more, reach (7 + 3 * (deq s' - deq s)) s s' /\ wp s' = after_notify (wp_d (wp s)) more /\
+                  deq s <= deq s' <= length (enq s).
+Proof.
+  intros [IA IB] HB P. pose proof (a_wp s IA) as W. pose proof (a_deq s IA) as Hd. unfold wp_inv in W.
+  destruct (wp s) eqn:Wp; try discriminate P; cbn [wp_d].
+  - (* WTicket *)
+    destruct (ticket_pass s d k Wp Hd HB) as (s' & R & W' & D & _).
+    exists s'; eexists. split; [eapply reach_le; [|exact R]; lia|]. split; [exact W'|]. lia.
+  - (* WBatch *)
+    destruct W as (_ & Hr & Hl).
+    destruct (batch_notify_pass s d k rem Wp Hr Hl HB) as (s' & R & W' & D & _).
+    exists s'; eexists. split; [eapply reach_le; [|exact R]; lia|]. split; [exact W'|]. lia.
+  - (* WExpBegin *)
+    destruct W as (_ & Hl & _).
+    destruct (step_expbegin s d k rem b Wp) as (s1 & S1 & W1 & D1 & N1).
+    destruct (wstep_frame _ _ S1) as (E1 & _ & _ & B1).
+    destruct (expend_pass s1 d k rem b W1) as (s' & R & W' & D & _); try lia.
+    { rewrite E1. lia. }
+    exists s'; eexists. split; [eapply reach_le; [|eapply reach_step; [exact S1 | exact R]]; lia|]. split; [exact W'|]. lia.
+  - (* WExpEnd *)
+    destruct W as (_ & Hl & _).
+    destruct (expend_pass s d k rem b Wp Hl HB) as (s' & R & W' & D & _).
+    exists s'; eexists. split; [eapply reach_le; [|exact R]; lia|]. split; [exact W'|]. lia.
+  - destruct (notify_pass s d k more Wp) as (s' & R & W' & D & _).
+    exists s'; eexists. split; [eapply reach_le; [|exact R]; lia|]. split; [exact W'|]. lia.
+  - destruct (flushcall_pass s d k more Wp) as (s' & R & W' & D & _).
+    exists s'; eexists. split; [eapply reach_le; [|exact R]; lia|]. split; [exact W'|]. lia.
+  - destruct (ld2_pass s d k more Wp) as (s' & R & W' & D & _).
+    exists s'; eexists. split; [eapply reach_le; [|exact R]; lia|]. split; [exact W'|]. lia.
+  - destruct W as (_ & Hv).
+    destruct (cas_pass s d k v more Wp Hv) as (s' & R & W' & D & _).
+    exists s'; eexists. split; [eapply reach_le; [|exact R]; lia|]. split; [exact W'|]. lia.
+Qed.
+
+(* ---- (a) not shut down: a full pass from the top drains the queue and publishes every pending ticket *)
+Definition flush_goal (s s' : st) : Prop :=
+  notified s' = pending s /\ pending s' = pending s /\ enq s' = enq s /\ deq s' = length (enq s) /\ inflight s' = None.
+
+Lemma after_notify_inflight s d more : Inv s -> wp s = after_notify d more -> inflight s = None.
+Proof.
+  intros [IA _] W. rewrite (a_inflight s IA), W. unfold after_notify. destruct more; [|destruct d]; reflexivity.
+Qed.
+
+Lemma top_goal s d : Inv s -> 0 < Bsz s -> wp s = WTop d ->
+  exists s', reach (7 + 3 * (length (enq s) - deq s)) s s' /\ flush_goal s s'.
+Proof.
+  intros I HB Wp. pose proof (a_deq s (proj1 I)) as Hd. pose proof (a_notified s (proj1 I)) as Hn.
+  destruct (top_pass s d Wp Hd HB) as (s' & R & W & D & N).
+  destruct (reach_frame_inv _ _ _ I R) as (I' & E & Pn & _ & _).
+  exists s'. split; [exact R|]. unfold flush_goal. repeat split; auto; try lia.
+  eapply after_notify_inflight; eauto.
+Qed.
+
+Lemma idle_goal s : Inv s -> 0 < Bsz s -> is_shut s = false -> wp s = WIdle ->
+  exists s', reach (8 + 3 * (length (enq s) - deq s)) s s' /\ flush_goal s s'.
+Proof.
+  intros I HB Sh Wp. destruct (step_idle s Wp) as (s1 & S1 & W1 & D1 & N1). rewrite Sh in W1.
+  pose proof (wstep_inv _ _ I S1) as I1. destruct (wstep_frame _ _ S1) as (E1 & P1 & _ & B1).
+  destruct (top_goal s1 false I1 ltac:(lia) W1) as (s' & R & G).
+  exists s'. split; [eapply reach_le; [|eapply reach_step; [exact S1 | exact R]]; rewrite E1, D1; lia|].
+  unfold flush_goal in *. rewrite E1, P1 in G. exact G.
+Qed.
+
+Theorem worker_solo_flush_progress_bound : forall s, Inv s -> 0 < Bsz s -> is_shut s = false ->
+  exists n s', n <= 15 + 3 * (length (enq s) - deq s) /\ witer n s = Some s' /\
+               notified s' = pending s /\ pending s' = pending s /\
+               enq s' = enq s /\ deq s' = length (enq s) /\ inflight s' = None.
+Proof.
+  intros s I HB Sh.
+  assert (G : exists s', reach (15 + 3 * (length (enq s) - deq s)) s s' /\ flush_goal s s').
+  { pose proof (a_wp s (proj1 I)) as W. pose proof (a_drain s (proj1 I)) as Dr. unfold wp_inv in W.
+    destruct (in_pass (wp s)) eqn:P.
+    - destruct (mid_pass s I HB P) as (s1 & more & R1 & W1 & D1).
+      destruct (reach_frame_inv _ _ _ I R1) as (I1 & E1 & P1 & Sh1 & B1).
+      destruct (wp_d (wp s)) eqn:Dd; [rewrite (Dr eq_refl) in Sh; discriminate|].
+      assert (G1 : exists s', reach (8 + 3 * (length (enq s1) - deq s1)) s1 s' /\ flush_goal s1 s').
+      { destruct more; cbn [after_notify] in W1.
+        - destruct (top_goal s1 false I1 ltac:(lia) W1) as (s' & R & G). exists s'. split; [eapply reach_le; [|exact R]; lia | exact G].
+        - apply idle_goal; auto; try lia. congruence. }
+      destruct G1 as (s' & R & G). exists s'.
+      split; [eapply reach_le; [|eapply reach_trans; [exact R1 | exact R]]; rewrite E1; lia|].
+      unfold flush_goal in *. rewrite E1, P1 in G. exact G.
+    - destruct (wp s) eqn:Wp; try discriminate P.
+      + destruct (idle_goal s I HB Sh Wp) as (s' & R & G). exists s'. split; [eapply reach_le; [|exact R]; lia | exact G].
+      + destruct (top_goal s d I HB Wp) as (s' & R & G). exists s'. split; [eapply reach_le; [|exact R]; lia | exact G].
+      + congruence.
+      + destruct W as [W _]. congruence.
+      + destruct W as [W _]. congruence. }
+  destruct G as (s' & (n & L & Wn) & G). exists n, s'. split; [exact L|]. split; [exact Wn | exact G].
+Qed.
+
+Theorem worker_solo_flush_progress : forall s, Inv s -> 0 < Bsz s -> is_shut s = false ->
+  exists n s', witer n s = Some s' /\ notified s' = pending s /\ pending s' = pending s /\
+               enq s' = enq s /\ deq s' = length (enq s) /\ inflight s' = None.
+Proof.
+  intros s I HB Sh. destruct (worker_solo_flush_progress_bound s I HB Sh) as (n & s' & _ & H). exists n, s'. exact H.
+Qed.
+
+(* ---- (b) shut down: the worker drains and exits *)
+Lemma drain_quiet s : wp s = WDrain0 -> deq s = length (enq s) -> pending s <= notified s ->
+  exists s', reach 3 s s' /\ wp s' = WDone /\ deq s' = deq s.
+Proof.
+  intros Wp Hd Hp. destruct (step_drain0 s Wp) as (s1 & S1 & W1 & D1 & N1).
+  rewrite (queue_len s) in W1 by lia. replace (length (enq s) - deq s) with 0 in W1 by lia. cbn [Nat.eqb] in W1.
+  destruct (wstep_frame _ _ S1) as (E1 & P1 & _ & _).
+  destruct (step_drainld s1 None None W1 (or_introl eq_refl)) as (s2 & S2 & D2 & N2 & W2).
+  destruct (wstep_frame _ _ S2) as (E2 & P2 & _ & _).
+  destruct (step_drainld s2 _ None W2 (or_intror eq_refl)) as (s3 & S3 & D3 & N3 & W3).
+  assert (L : Nat.leb (pending s1) (notified s2) = true) by (apply Nat.leb_le; lia).
+  rewrite L in W3. exists s3.
+  split; [eapply reach_step; [exact S1|]; eapply reach_step; [exact S2|]; eapply reach_step; [exact S3|]; apply reach_refl|].
+  split; [exact W3 | lia].
+Qed.
+
+Lemma quiet_done s : 0 < Bsz s -> is_shut s = true -> deq s = length (enq s) -> pending s <= notified s ->
+  (wp s = WIdle \/ wp s = WDrain0 \/ exists d, wp s = WTop d) ->
+  exists s', reach 11 s s' /\ wp s' = WDone /\ deq s' = deq s.
+Proof.
+  intros HB Sh Hd Hp Hw.
+  assert (Idle : forall s, is_shut s = true -> deq s = length (enq s) -> pending s <= notified s -> wp s = WIdle ->
+                 exists s', reach 4 s s' /\ wp s' = WDone /\ deq s' = deq s).
+  { clear. intros s Sh Hd Hp Wp. destruct (step_idle s Wp) as (s1 & S1 & W1 & D1 & N1). rewrite Sh in W1.
+    destruct (wstep_frame _ _ S1) as (E1 & P1 & _ & _).
+    destruct (drain_quiet s1 W1) as (s' & R & W & D); try lia. { rewrite E1; lia. }
+    exists s'. split; [eapply reach_step; [exact S1 | exact R]|]. split; [exact W | lia]. }
+  destruct Hw as [Wp|[Wp|[d Wp]]].
+  - destruct (Idle s Sh Hd Hp Wp) as (s' & R & W & D). exists s'. split; [eapply reach_le; [|exact R]; lia|]. auto.
+  - destruct (drain_quiet s Wp Hd Hp) as (s' & R & W & D). exists s'. split; [eapply reach_le; [|exact R]; lia|]. auto.
+  - destruct (top_pass s d Wp ltac:(lia) HB) as (s1 & R1 & W1 & D1 & N1).
+    replace (length (enq s) - deq s) with 0 in * by lia. cbn [Nat.eqb negb after_notify] in W1.
+    pose proof (reach_frame _ _ _ R1) as F1.
+    destruct F1 as (E1 & P1 & Sh1 & B1).
+    destruct d.
+    + destruct (drain_quiet s1 W1) as (s' & R & W & D); try lia. { rewrite E1; lia. }
+      exists s'. split; [eapply reach_le; [|eapply reach_trans; [exact R1 | exact R]]; lia|]. split; [exact W | lia].
+    + destruct (Idle s1) as (s' & R & W & D); try lia; try congruence.
+      exists s'. split; [eapply reach_le; [|eapply reach_trans; [exact R1 | exact R]]; lia|]. split; [exact W | lia].
+Qed.
+
+Lemma top_done s d : Inv s -> 0 < Bsz s -> is_shut s = true -> wp s = WTop d ->
+  exists s', reach (18 + 3 * (length (enq s) - deq s)) s s' /\ wp s' = WDone /\ deq s' = length (enq s).
+Proof.
+  intros I HB Sh Wp. pose proof (a_deq s (proj1 I)) as Hd. pose proof (a_notified s (proj1 I)) as Hn.
+  destruct (top_pass s d Wp Hd HB) as (s1 & R1 & W1 & D1 & N1).
+  destruct (reach_frame_inv _ _ _ I R1) as (I1 & E1 & P1 & Sh1 & B1).
+  destruct (quiet_done s1) as (s' & R & W & D); try lia; try congruence.
+  { unfold after_notify in W1. destruct (negb _); [right; right; eauto|]. destruct d; auto. }
+  exists s'. split; [eapply reach_le; [|eapply reach_trans; [exact R1 | exact R]]; lia|]. split; [exact W | lia].
+Qed.
+
+Definition done_goal (s s' : st) : Prop := wp s' = WDone /\ deq s' = length (enq s).
+
+Lemma drain0_done s : Inv s -> 0 < Bsz s -> is_shut s = true -> wp s = WDrain0 ->
+  exists s', reach (21 + 3 * (length (enq s) - deq s)) s s' /\ done_goal s s'.
+Proof.
+  intros I HB Sh Wp. pose proof (a_deq s (proj1 I)) as Hd.
+  destruct (step_drain0 s Wp) as (s1 & S1 & W1 & D1 & N1). rewrite (queue_len s Hd) in W1.
+  pose proof (wstep_inv _ _ I S1) as I1. destruct (wstep_frame _ _ S1) as (E1 & P1 & Sh1 & B1).
+  destruct (Nat.eqb (length (enq s) - deq s) 0) eqn:Z.
+  - apply Nat.eqb_eq in Z.
+    destruct (step_drainld s1 None None W1 (or_introl eq_refl)) as (s2 & S2 & D2 & N2 & W2).
+    pose proof (wstep_inv _ _ I1 S2) as I2. destruct (wstep_frame _ _ S2) as (E2 & P2 & Sh2 & B2).
+    destruct (step_drainld s2 _ None W2 (or_intror eq_refl)) as (s3 & S3 & D3 & N3 & W3).
+    pose proof (wstep_inv _ _ I2 S3) as I3. destruct (wstep_frame _ _ S3) as (E3 & P3 & Sh3 & B3).
+    assert (R3 : reach 3 s s3).
+    { eapply reach_step; [exact S1|]. eapply reach_step; [exact S2|]. eapply reach_step; [exact S3|]. apply reach_refl. }
+    destruct (Nat.leb (pending s1) (notified s2)).
+    + exists s3. split; [eapply reach_le; [|exact R3]; lia|]. split; [exact W3 | lia].
+    + destruct (top_done s3 true I3) as (s' & R & W & D); try lia; try congruence.
+      exists s'. split; [eapply reach_le; [|eapply reach_trans; [exact R3 | exact R]]; rewrite E3, E2, E1; lia|].
+      split; [exact W | congruence].
+  - destruct (top_done s1 true I1) as (s' & R & W & D); try lia; try congruence.
+    exists s'. split; [eapply reach_le; [|eapply reach_step; [exact S1 | exact R]]; rewrite E1, D1; lia|].
+    split; [exact W | congruence].
+Qed.
+
+Lemma idle_done s : Inv s -> 0 < Bsz s -> is_shut s = true -> wp s = WIdle ->
+  exists s', reach (22 + 3 * (length (enq s) - deq s)) s s' /\ done_goal s s'.
+Proof.
+  intros I HB Sh Wp. destruct (step_idle s Wp) as (s1 & S1 & W1 & D1 & N1). rewrite Sh in W1.
+  pose proof (wstep_inv _ _ I S1) as I1. destruct (wstep_frame _ _ S1) as (E1 & P1 & Sh1 & B1).
+  destruct (drain0_done s1 I1) as (s' & R & W & D); try lia; try congruence.
+  exists s'. split; [eapply reach_le; [|eapply reach_step; [exact S1 | exact R]]; rewrite E1, D1; lia|].
+  split; [exact W | congruence].
+Qed.
+
+(* The worker exits.  It has drained everything the queue ever accepted - unless it was already past DrainQueue's
+   empty test (WDrainLd) with a record added behind its back (a producer that had passed the is_shutdown test before
+   Shutdown set it): then it may exit without touching the queue again (late_record_left_behind below). *)
+Theorem worker_solo_shutdown_exit : forall s, Inv s -> 0 < Bsz s -> is_shut s = true -> wp s <> WDone ->
+  exists n s', n <= 29 + 3 * (length (enq s) - deq s) /\ witer n s = Some s' /\
+               wp s' = WDone /\ enq s' = enq s /\ pending s' = pending s /\
+               (deq s' = length (enq s) \/ (deq s' = deq s /\ exists p n, wp s = WDrainLd p n)).
+Proof.
+  intros s I HB Sh ND.
+  assert (G : exists s', reach (29 + 3 * (length (enq s) - deq s)) s s' /\ wp s' = WDone /\
+                         (deq s' = length (enq s) \/ (deq s' = deq s /\ exists p n, wp s = WDrainLd p n))).
+  { pose proof (a_wp s (proj1 I)) as W. unfold wp_inv in W.
+    destruct (in_pass (wp s)) eqn:P.
+    - destruct (mid_pass s I HB P) as (s1 & more & R1 & W1 & D1).
+      destruct (reach_frame_inv _ _ _ I R1) as (I1 & E1 & P1 & Sh1 & B1).
+      assert (G1 : exists s', reach (22 + 3 * (length (enq s1) - deq s1)) s1 s' /\ done_goal s1 s').
+      { unfold after_notify in W1. destruct more; [|destruct (wp_d (wp s))].
+        - destruct (top_done s1 _ I1 ltac:(lia) ltac:(congruence) W1) as (s' & R & G).
+          exists s'. split; [eapply reach_le; [|exact R]; lia | exact G].
+        - destruct (drain0_done s1 I1 ltac:(lia) ltac:(congruence) W1) as (s' & R & G).
+          exists s'. split; [eapply reach_le; [|exact R]; lia | exact G].
+        - apply idle_done; auto; try lia; congruence. }
+      destruct G1 as (s' & R & W' & D'). exists s'.
+      split; [eapply reach_le; [|eapply reach_trans; [exact R1 | exact R]]; rewrite E1; lia|].
+      split; [exact W'|]. left. congruence.
+    - destruct (wp s) eqn:Wp; try discriminate P.
+      + destruct (idle_done s I HB Sh Wp) as (s' & R & W' & D').
+        exists s'. split; [eapply reach_le; [|exact R]; lia|]. split; auto.
+      + destruct (top_done s d I HB Sh Wp) as (s' & R & W' & D').
+        exists s'. split; [eapply reach_le; [|exact R]; lia|]. split; auto.
+      + destruct (drain0_done s I HB Sh Wp) as (s' & R & W' & D').
+        exists s'. split; [eapply reach_le; [|exact R]; lia|]. split; auto.
+      + (* WDrainLd: the loads that decide between leaving and another pass *)
+        destruct W as (_ & _ & PN).
+        assert (Fin : forall s1 pv nv, Inv s1 -> 0 < Bsz s1 -> is_shut s1 = true -> wp s1 = WDrainLd pv nv ->
+                      pv = None \/ nv = None -> pv <> None \/ nv <> None ->
+                      exists s', reach (19 + 3 * (length (enq s1) - deq s1)) s1 s' /\ wp s' = WDone /\
+                                 (deq s' = length (enq s1) \/ deq s' = deq s1)).
+        { clear. intros s1 pv nv I1 HB1 Sh1 W1 PN NN.
+          destruct (step_drainld s1 pv nv W1 PN) as (s2 & S2 & D2 & N2 & W2).
+          pose proof (wstep_inv _ _ I1 S2) as I2. destruct (wstep_frame _ _ S2) as (E2 & P2 & Sh2 & B2).
+          assert (R2 : reach 1 s1 s2) by (eapply reach_step; [exact S2 | apply reach_refl]).
+          assert (C : wp s2 = WDone \/ wp s2 = WTop true).
+          { destruct pv as [p|]; destruct nv as [n|].
+            - destruct (Nat.leb p (notified s1)); auto.
+            - destruct (Nat.leb p (notified s1)); auto.
+            - destruct (Nat.leb (pending s1) n); auto.
+            - exfalso. destruct NN as [X|X]; apply X; reflexivity. }
+          destruct C as [C|C].
+          - exists s2. split; [eapply reach_le; [|exact R2]; lia|]. split; [exact C | right; lia].
+          - destruct (top_done s2 true I2) as (s' & R & W' & D'); try lia; try congruence.
+            exists s'. split; [eapply reach_le; [|eapply reach_trans; [exact R2 | exact R]]; rewrite E2; lia|].
+            split; [exact W' | left; congruence]. }
+        destruct p as [pv|]; [|destruct n as [nv|]].
+        * destruct (Fin s (Some pv) n I HB Sh Wp PN) as (s' & R & W' & D'); [left; discriminate|].
+          exists s'. split; [eapply reach_le; [|exact R]; lia|]. split; [exact W'|]. destruct D'; [left|right]; eauto.
+        * destruct (Fin s None (Some nv) I HB Sh Wp PN) as (s' & R & W' & D'); [right; discriminate|].
+          exists s'. split; [eapply reach_le; [|exact R]; lia|]. split; [exact W'|]. destruct D'; [left|right]; eauto.
+        * destruct (step_drainld s None None Wp PN) as (s1 & S1 & D1 & N1 & W1).
+          pose proof (wstep_inv _ _ I S1) as I1. destruct (wstep_frame _ _ S1) as (E1 & P1 & Sh1 & B1).
+          destruct (Fin s1 (Some (pending s)) None I1 ltac:(lia) ltac:(congruence) W1) as (s' & R & W' & D');
+            [right; reflexivity | left; discriminate |].
+          exists s'. split; [eapply reach_le; [|eapply reach_step; [exact S1 | exact R]]; rewrite E1; lia|].
+          split; [exact W'|]. destruct D'; [left|right]; [congruence|]. split; [lia | eauto].
+      + congruence. }
+  destruct G as (s' & R & W' & D'). destruct (reach_frame_inv _ _ _ I R) as (_ & E & Pn & _ & _).
+  destruct R as (n & L & Wn). exists n, s'. repeat split; auto.
+Qed.
+
+(* the statement asked for, with the one hypothesis it needs: a worker already past DrainQueue's empty test has
+   nothing behind it *)
+Theorem worker_solo_shutdown_progress : forall s, Inv s -> 0 < Bsz s -> is_shut s = true -> wp s <> WDone ->
+  (forall p n, wp s = WDrainLd p n -> deq s = length (enq s)) ->
+  exists n s', witer n s = Some s' /\ wp s' = WDone /\ enq s' = enq s /\ deq s' = length (enq s) /\ pending s' = pending s.
+Proof.
+  intros s I HB Sh ND H. destruct (worker_solo_shutdown_exit s I HB Sh ND) as (n & s' & _ & Wn & W & E & P & D).
+  exists n, s'. repeat split; auto. destruct D as [D|(D & p & m & Wp)]; [exact D|]. rewrite D. eapply H; eauto.
+Qed.
+
+(* ------------------------------------------------------------------ non-vacuity *)
+(* demo_trace up to the point where thread 2 has taken flush ticket 1 (one record queued, the worker idle): eleven
+   solo steps of the worker export the record and publish the ticket *)
+Example solo_flush_demo :
+  exists s s', run (init 1 1) (firstn 12 demo_trace) = Some s /\ is_shut s = false /\ pending s = 1 /\ notified s = 0 /\
+               queue s = [11] /\ witer 11 s = Some s' /\
+               notified s' = 1 /\ deq s' = 1 /\ exported s' = [[11]] /\ inflight s' = None /\ wp s' = WTop false.
+Proof. eexists; eexists. split; [vm_compute; reflexivity|]. vm_compute. repeat split; reflexivity. Qed.
+
+(* demo_trace up to the point where thread 3's Shutdown has set is_shutdown: four solo steps and the worker has exited *)
+Example solo_shutdown_demo :
+  exists s s', run (init 1 1) (firstn 31 demo_trace) = Some s /\ is_shut s = true /\ wp s = WIdle /\
+               witer 4 s = Some s' /\ wp s' = WDone /\ deq s' = length (enq s).
+Proof. eexists; eexists. split; [vm_compute; reflexivity|]. vm_compute. repeat split; reflexivity. Qed.
+
+(* why worker_solo_shutdown_progress needs its extra hypothesis: thread 1 passes OnEnd's is_shutdown test, thread 3
+   shuts the processor down, the worker finds the queue empty, THEN thread 1's record is accepted by the queue.
+   The worker (already past the empty test) loads pending and notified and exits; the record is never exported. *)
+Definition late_record_trace : list (nat * ev) :=
+  [(1, ECallOnEnd 11); (1, ELdShut false);
+   (3, ECallShutdown); (3, ELockShut); (3, EXchgShut false);
+   (0, ELdShut true); (0, EBufEmpty true);
+   (1, EBufAdd 11 true)].
+
+Example late_record_left_behind :
+  exists s, reachable 1 1 s /\ is_shut s = true /\ wp s = WDrainLd None None /\ queue s = [11] /\
+            (exists s', witer 2 s = Some s' /\ wp s' = WDone /\ queue s' = [11] /\ exported s' = []) /\
+            (forall n s', witer n s = Some s' -> wp s' = WDone -> deq s' = 0 /\ length (enq s) = 1).
+Proof.
+  eexists. split; [exists late_record_trace; vm_compute; reflexivity|].
+  split; [reflexivity|]. split; [reflexivity|]. split; [reflexivity|].
+  split; [eexists; split; [vm_compute; reflexivity|]; repeat split; reflexivity|].
+  intros n s' H W. destruct n as [|[|[|n]]].
+  - vm_compute in H. inversion H; subst. discriminate W.
+  - vm_compute in H. inversion H; subst. discriminate W.
+  - vm_compute in H. inversion H; subst. split; reflexivity.
+  - cbn in H. discriminate H.
 Qed.
